@@ -49,8 +49,13 @@ class Orphanage(ElabPass):
         """Elaborate a Module"""
 
         # Check each attribute in the module namespace for orphanage.
-        for attr in module.namespace.values():
+        for name, attr in module.namespace.items():
             self.assert_parentage(module, attr)
+            if attr.name != name:
+                # The same object has (also) been added under another name
+                msg = f"Module `{module.name}` attribute `{name}` is also named `{attr.name}`. "
+                msg += "Each attribute can only be added to a Module once. "
+                self.fail(msg)
 
         # Check instance connections, which are not in the module namespace.
         instlike = (
